@@ -605,6 +605,135 @@ Definition tr_stofail : list event := [
   EvG GShutdownRet
 ].
 
+(* harness program (start while running):
+ring 600
+filtring 600
+seed 3
+cam 0 w=4 h=3 type=1 trig=0 pace=1
+init
+cfg 0 cam=A sto=A n=1099511627776 avg=0 delay=0
+configure
+start
+yield 20
+start
+state
+stop
+state
+shutdown *)
+Definition tr_restart : list event := [
+  EvS false ACli (DOpenCam 1);
+  EvS false ACli (DSetCam 1);
+  EvS false ACli (DOpenSto 2);
+  EvS false ACli (DSetSto 2);
+  EvG (GConfigure true false 1099511627776 0);
+  EvG GStartCall;
+  EvS false ACli (DStoStart 2 true);
+  EvS false ACli (Accept true);
+  EvS false ACli (RMapEnter RdSink);
+  EvS false ACli (RMap RdSink []);
+  EvS false ACli (RUnmap RdSink 0);
+  EvS false ACli (Spawn RSink);
+  EvS false ASink (RMapEnter RdSink);
+  EvS false ACli (Spawn RFilt);
+  EvS false ASink (RMap RdSink []);
+  EvS false ASink (RUnmap RdSink 0);
+  EvS false ACli (DCamStart 1 true 2);
+  EvS false ACli (Spawn RSrc);
+  EvG (GStartRet true);
+  EvS false ASink (RMapEnter RdSink);
+  EvS false ASrc (WMapEnter);
+  EvS false ASink (RMap RdSink []);
+  EvS false ASink (RUnmap RdSink 0);
+  EvS false ASrc (WMap true);
+  EvS false ASink (RMapEnter RdSink);
+  EvS false ASink (RMap RdSink []);
+  EvS false ASink (RUnmap RdSink 0);
+  EvS false ASink (RMapEnter RdSink);
+  EvS false ASrc (DGetFrame 1 (Some (0, 2, 32212516913)));
+  EvS false ASink (RMap RdSink []);
+  EvS false ASink (RUnmap RdSink 0);
+  EvS false ASink (RMapEnter RdSink);
+  EvS false ASrc (Commit true (mkF 2 0 0 32212516913));
+  EvS false ASrc (WMapEnter);
+  EvS false ASink (RMap RdSink [(mkF 2 0 0 32212516913)]);
+  EvS false ASink (DAppend 2 true [(mkF 2 0 0 32212516913)]);
+  EvS false ASrc (WMap true);
+  EvS false ASink (RUnmap RdSink 1);
+  EvS false ASink (RMapEnter RdSink);
+  EvS false ASink (RMap RdSink []);
+  EvS false ASink (RUnmap RdSink 0);
+  EvS false ASink (RMapEnter RdSink);
+  EvS false ASink (RMap RdSink []);
+  EvS false ASink (RUnmap RdSink 0);
+  EvS false ASrc (DGetFrame 1 (Some (1, 2, 32212516913)));
+  EvS false ASrc (Commit true (mkF 2 1 1 32212516913));
+  EvS false ASrc (WMapEnter);
+  EvS false ASrc (WMap true);
+  EvS false ASink (RMapEnter RdSink);
+  EvS false ASink (RMap RdSink [(mkF 2 1 1 32212516913)]);
+  EvS false ASink (DAppend 2 true [(mkF 2 1 1 32212516913)]);
+  EvS false ASink (RUnmap RdSink 1);
+  EvS false ASink (RMapEnter RdSink);
+  EvS false ASrc (DGetFrame 1 (Some (2, 2, 32212516913)));
+  EvS false ASrc (Commit true (mkF 2 2 2 32212516913));
+  EvS false ASrc (WMapEnter);
+  EvS false ASink (RMap RdSink [(mkF 2 2 2 32212516913)]);
+  EvS false ASrc (WMap true);
+  EvS false ASink (DAppend 2 true [(mkF 2 2 2 32212516913)]);
+  EvS false ASink (RUnmap RdSink 1);
+  EvS false ASink (RMapEnter RdSink);
+  EvS false ASink (RMap RdSink []);
+  EvS false ASink (RUnmap RdSink 0);
+  EvS false ASrc (DGetFrame 1 (Some (3, 2, 32212516913)));
+  EvS false ASink (RMapEnter RdSink);
+  EvG GStartCall;
+  EvG GStartRefused;
+  EvS false ASink (RMap RdSink []);
+  EvS false ASink (RUnmap RdSink 0);
+  EvS false ASink (RMapEnter RdSink);
+  EvS false ASink (RMap RdSink []);
+  EvS false ASink (RUnmap RdSink 0);
+  EvS false ASrc (Commit true (mkF 2 3 3 32212516913));
+  EvS false ASrc (CbStopFilter);
+  EvS false ASink (RMapEnter RdSink);
+  EvS false ASink (RMap RdSink [(mkF 2 3 3 32212516913)]);
+  EvS false ASink (DAppend 2 true [(mkF 2 3 3 32212516913)]);
+  EvS false ACli (Accept false);
+  EvS false ACli (DTrigger 1);
+  EvS false AFilt (Exit RFilt);
+  EvS false ASink (RUnmap RdSink 1);
+  EvS false ASink (RMapEnter RdSink);
+  EvS false ASink (RMap RdSink []);
+  EvS false ASink (RUnmap RdSink 0);
+  EvS false ASink (RMapEnter RdSink);
+  EvS false ASrc (Joined RFilt);
+  EvS false ASrc (CbStopSink);
+  EvS false ASink (RMap RdSink []);
+  EvS false ASink (RUnmap RdSink 0);
+  EvS false ASrc (DCamStop 1);
+  EvS false ASrc (Exit RSrc);
+  EvS false ACli (Joined RSrc);
+  EvS false ASink (RMapEnter RdSink);
+  EvS false ASink (RMap RdSink []);
+  EvS false ASink (RUnmap RdSink 0);
+  EvS false ASink (DStoStop 2);
+  EvS false ASink (Exit RSink);
+  EvS false ACli (Joined RSink);
+  EvS false ACli (Accept true);
+  EvG (GStartRet false);
+  EvG (GState HAwait);
+  EvG GStopCall;
+  EvS false ACli (Accept true);
+  EvG GStopRet;
+  EvG (GState HArmed);
+  EvG GShutdownCall;
+  EvS false ACli (Accept false);
+  EvS false ACli (Accept true);
+  EvS false ACli (DCloseCam 1);
+  EvS false ACli (DCloseSto 2);
+  EvG GShutdownRet
+].
+
 Local Close Scope N_scope.
 (* the state after the first n events of a trace (None if the model rejects one of them) *)
 Definition after (tr : list event) (n : nat) : option sys := accepts init_sys (firstn n tr).
@@ -614,3 +743,4 @@ Definition before_first_stop_f : nat := 65.
 Definition before_second_stop_f : nat := 121.
 Definition at_failing_append : nat := 43.
 Definition after_abort_refusal : nat := 117.   (* tr_abort: the first 117 events, i.e. up to and including the client's Accept false *)
+Definition before_start_refused : nat := 66.
